@@ -24,8 +24,8 @@ Definition lfont_eqb (a b : lfont) : bool :=
   bool_decide (lf_meta a = lf_meta b) && bool_decide (lf_lib a = lf_lib b) &&
   bool_decide (lf_info a = lf_info b) && bool_decide (lf_groups a = lf_groups b) &&
   bool_decide (lf_kerning a = lf_kerning b) && bool_decide (lf_features a = lf_features b) &&
-  bool_decide (map (λ l, (ll_name l, ll_dir l, ll_glyphs l, ll_info l)) (lf_layers a)
-               = map (λ l, (ll_name l, ll_dir l, ll_glyphs l, ll_info l)) (lf_layers b)) &&
+  bool_decide (map (λ l, (ll_name l, ll_dir l, ll_glyphs l, ll_files l, ll_info l)) (lf_layers a)
+               = map (λ l, (ll_name l, ll_dir l, ll_glyphs l, ll_files l, ll_info l)) (lf_layers b)) &&
   same_keys (lf_data a) (lf_data b) && same_keys (lf_images a) (lf_images b).
 
 Definition run_lcase (c : lcase) : lerr + lfont :=
